@@ -15,7 +15,8 @@ EXPLANATION = (
     'no axis-less squeeze on arrays that must keep their dimensions; (DESC) raw descriptor values are converted before '
     'ndarray-only indexing; (MERGE) merge_datasets concatenates measurements and every descriptor over the same sequence; '
     '(ACC) per-iteration blocks are accumulated; (SIB) TemporalDataset overrides handle the descriptor kinds of their '
-    'Dataset counterparts plus time. Multiset equalities and numeric bin means are NOT decided.')
+    'Dataset counterparts plus time. Multiset equalities and numeric bin means are NOT decided.'
+    ' Also: (SEL-DESC) subset_* read the descriptor values; (DESC) raw descriptor values are not compared / subtracted slice against slice; (MASK-WEIGHT) group means select rows instead of multiplying by a membership matrix.')
 ASSUMPTIONS = ['axis/descriptor table: measurements axis 0 obs, axis 1 channel, axis 2 time']
 FLOOR = 60
 ANALYSED_FLOORS = {'order_obligations': 6}
